@@ -10,6 +10,16 @@ from synced_collections.backends.collection_json import JSONDict
 tmp = tempfile.mkdtemp()
 a = JSONDict(os.path.join(tmp, "a.json")); a["la"] = [1]
 b = JSONDict(os.path.join(tmp, "b.json")); b["lb"] = [2]
+import json
+
+
+def grow(n):
+    # the files grow behind the objects' backs (another process): the next load has new list elements to add
+    for fn, key in ((a.filename, "la"), (b.filename, "lb")):
+        with open(fn, "w") as f:
+            json.dump({key: list(range(n))}, f)
+
+
 barrier = threading.Barrier(2, timeout=5)
 seen = threading.local()
 orig_load = JSONDict._load_from_resource
@@ -20,6 +30,8 @@ def load_with_barrier(self):
     if not getattr(seen, "done", False) and threading.current_thread().name in ("T1", "T2"):
         seen.done = True  # first load of this thread = load of its own collection, own lock held
         try:
+            if barrier.wait() == 0:
+                grow(4)  # another process appends to both files while both writers are in their critical sections
             barrier.wait()
         except threading.BrokenBarrierError:
             pass
